@@ -268,7 +268,9 @@ impl Check for MigrationCheck {
     fn meta(&self) -> Meta {
         Meta {
             level: "exploration",
-            rule: if self.prop == "C03" {
+            rule: if self.prop == "C02" {
+                "same plans as C03's migration runs (scale out/in by one chunk under client traffic, heavy-tailed latencies, racer, slow writes, compression); the broker's epoch is sampled every 100 ms. Judged: every client command whose whole exchange lies in a stretch where the epoch had been unchanged for 1.5 s (so every proxy had applied the current metadata): it must reach its executing proxy after at most three redirections and must not still be answered MOVED after six. Non-trivial = >=1 command judged and a migration started."
+            } else if self.prop == "C03" {
                 "plan = cluster of 1-3 chunks scaled out or in by one chunk while 2-4 clients issue 80-220 string/counter/list operations (incl. DEL/LPOP/RPOP) on 16-48 keys through random proxies, following MOVED; real coordinator loops drive metadata and commit. Every third run slow writes: from shortly before the migration starts, the next 6-40 writes a proxy has sent to its own Redis stay in flight up to 60-500 ms longer (the pre-switch barrier must wait for them). Every third run a racer: the next 4-40 RESTORE messages stay in flight up to 30-400 ms longer and a racing client deletes their key through a random proxy the moment they are sent; 4-24 read-then-delete pairs of two clients a few hops apart in every run. Swarm: latency 1-15 ms with a heavy tail (0-15% of messages x4..x40, per connection FIFO), backend_conn_num 1-3, active redirection, scan_count 1-16, scan interval, migration_limit, compressed metadata, SCAN duplicates. Non-trivial = migration committed AND >=1 write and >=1 deleting command were acknowledged while a migration was in flight; distinct = distinct (delivery-schedule hash, end state hash)."
             } else {
                 "same plan with a TTL key population (30 ms .. 1 h, 30 days and 5e9 ms i.e. beyond 2^31/2^32 ms, and persistent); every third run the source nodes answer PTTL with a buggified value {0,1,2,999,2^31,2^32+1,2^63-1,-1,-2,malformed}. Non-trivial = >=1 RESTORE of a key with a remaining TTL was matched with its PTTL reading."
@@ -520,6 +522,23 @@ async fn run_migration(prop: &'static str, plan: &Value, want_sample: bool) -> R
         })
     };
 
+    // C02 (migration part): every operation's redirections, and the broker's epoch sampled every
+    // 100 ms, so that "all proxies had time to apply the current metadata" can be judged afterwards
+    let hop_log: Arc<parking_lot::Mutex<Vec<(u64, u64, usize, bool, String)>>> = Arc::new(parking_lot::Mutex::new(vec![])); // (inv ms, ret ms, hops, still MOVED, what)
+    let epoch_log: Arc<parking_lot::Mutex<Vec<(u64, u64)>>> = Arc::new(parking_lot::Mutex::new(vec![]));
+    let sampler = {
+        let holder = holder.clone();
+        let net = net.clone();
+        let epoch_log = epoch_log.clone();
+        tokio::spawn(async move {
+            loop {
+                if let Ok(st) = holder.get().get_all_data().await {
+                    epoch_log.lock().push((net.now_ms(), st.get_global_epoch()));
+                }
+                tokio::time::sleep(Duration::from_millis(100)).await;
+            }
+        })
+    };
     // clients
     let n_clients = cfg["n_clients"].as_u64().unwrap_or(2) as usize;
     let ops: Vec<Value> = plan["ops"].as_array().cloned().unwrap_or_default();
@@ -533,6 +552,7 @@ async fn run_migration(prop: &'static str, plan: &Value, want_sample: bool) -> R
         let history = history.clone();
         let probes = probes.clone();
         let holder = holder.clone();
+        let hop_log = hop_log.clone();
         tasks.push(tokio::spawn(async move {
             let mut cl = Client::new(&net, c);
             let mut my = my;
@@ -559,7 +579,10 @@ async fn run_migration(prop: &'static str, plan: &Value, want_sample: bool) -> R
                 let members = cluster_members(&holder).await;
                 let p = o["proxy"].as_u64().unwrap_or(0) as usize;
                 let target = if members.is_empty() { proxy_addr(p, 0) } else { members[p % members.len()].clone() };
+                let inv_ms = net.now_ms();
                 let r = cl.call(&target, &cmd, max_hops).await;
+                let still_moved = r.reply.as_ref().ok().and_then(crate::cluster::parse_moved).is_some();
+                hop_log.lock().push((inv_ms, net.now_ms(), r.hops, still_moved, format!("{} {} via {:?}", name, String::from_utf8_lossy(&k.name), r.path)));
                 let obs = classify(&r.reply, &mut probes.lock());
                 if r.hops > 0 {
                     *probes.lock().entry(format!("moved_hops_{}", r.hops.min(6))).or_insert(0) += 1;
@@ -657,6 +680,53 @@ async fn run_migration(prop: &'static str, plan: &Value, want_sample: bool) -> R
     }
     rec.vtime_ms = net.now_ms();
 
+    sampler.abort();
+    if prop == "C02" {
+        // more than three redirections (or still being redirected after six) although the broker's
+        // epoch had not changed for 1.5 s before the command and did not change while it ran
+        let elog = epoch_log.lock().clone();
+        let epoch_at = |ms: u64| elog.iter().filter(|(t, _)| *t <= ms).map(|(_, e)| *e).last();
+        let (mut judged, mut over) = (0u64, 0u64);
+        for (inv, ret, hops, still_moved, what) in hop_log.lock().iter() {
+            let settled = match (epoch_at(inv.saturating_sub(1500)), epoch_at(*inv), epoch_at(*ret)) {
+                (Some(a), Some(b), Some(c)) => a == b && b == c && *inv >= 1500,
+                _ => false,
+            };
+            if !settled {
+                continue;
+            }
+            judged += 1;
+            if *hops > 3 || *still_moved {
+                over += 1;
+                rec.violate(Violation::new("C02", "too-many-redirections", format!("{}: {} redirections{} although the broker's epoch had been unchanged for 1.5 s (t={}..{} ms)", what, hops, if *still_moved { ", still answered MOVED" } else { "" }, inv, ret)));
+                if over >= 3 {
+                    break;
+                }
+            }
+        }
+        rec.probe_n("c02_migration_ops_judged_for_redirections", judged);
+        for (k, v) in probes.lock().iter() {
+            if k.starts_with("moved_hops") {
+                rec.probe_n(k, *v);
+            }
+        }
+        rec.nontrivial = judged > 0 && mig_started_seq.load(std::sync::atomic::Ordering::SeqCst) != u64::MAX;
+        {
+            let g = net.inner.lock();
+            rec.trace_hash = g.trace.0;
+            rec.sched_hash = g.sched.0;
+            rec.state_hash = g.trace.0;
+            rec.steps = g.seq;
+            for (k, v) in g.fault_counts.iter() {
+                *rec.faults.entry(k.clone()).or_insert(0) += v;
+            }
+            rec.faults.insert("msg_delay_reorder".into(), g.delivered);
+        }
+        if want_sample {
+            rec.sample = Some(json!({"plan": plan, "ops_judged": judged}));
+        }
+        return rec;
+    }
     // ---- oracles
     let hist = history.lock().clone();
     let mut per_key: BTreeMap<usize, Vec<HOp>> = BTreeMap::new();
